@@ -133,6 +133,14 @@ func build(c *Check, scratch string) (*instr.Census, string) {
 func runWorker(bin, scratch string, env []string, timeout time.Duration) (string, error) {
 	cmd := exec.Command(bin, "-test.run", "^TestWorker$", "-test.timeout", "0", "-test.count", "1")
 	cmd.Env = append(os.Environ(), env...)
+	for i, e := range cmd.Env {
+		// a per-invocation directory for checks whose code under test writes files (C18: PGO_TRACE_DIR)
+		if strings.HasSuffix(e, "=@SCRATCH") {
+			d := filepath.Join(scratch, "files")
+			os.MkdirAll(d, 0o755)
+			cmd.Env[i] = strings.TrimSuffix(e, "@SCRATCH") + d
+		}
+	}
 	cmd.Dir = scratch
 	var stderr bytes.Buffer
 	cmd.Stderr = &stderr
